@@ -290,6 +290,7 @@ def handling_case(prog, E, with_condition, n_batches):
     keys_used = []
     epochs = {"train": 0, "val": 0}
     used = {}
+    n_splits = [0]
     n_arr = 2 if with_condition else 1
 
     class Arr(StubObj):
@@ -311,6 +312,10 @@ def handling_case(prog, E, with_condition, n_batches):
         if [getattr(a, "name", None) for a in arrays] != ["x", "condition"][:n_arr]:
             issues.append(f"train_val_split is given {arrays!r}; the data are (x, condition) in this order")
         keys_used.append(("train/validation split", key))
+        n_splits[0] += 1
+        if n_splits[0] > 1:
+            issues.append("train_val_split is called again after training has started: rows validated in one epoch are "
+                          "trained on in another")
         return ([Arr(f"train[{i}]") for i in range(len(arrays))], [Arr(f"val[{i}]") for i in range(len(arrays))])
 
     def permutation(key, a, *r, **k):
